@@ -29,6 +29,10 @@ import (
 
 const drmConfigFile = "/repo/pkg/drm/testdata/drm_config_test.json"
 
+// altAsset: bundled asset whose segments alternate between 4 s and 8 s (12 s loop, $Time$ addressing):
+// its MPD and patches change off the grid of the nominal segment duration.
+const altAsset = "testpic_alt_seg_dur_stl"
+
 // option families in the order in which their parts are put into the URL
 var optOrder = []string{"patch", "mode", "numbering", "ato", "chunk", "periods", "timesubs", "fault", "protection"}
 
@@ -95,6 +99,10 @@ func newHistoryEnv() (*historyEnv, error) {
 		return nil, err
 	}
 	env := &historyEnv{root: root, cleanup: cleanup, segMS: map[string]int64{}, reps: map[string]map[string]*lib.TLRep{}}
+	if err := os.CopyFS(filepath.Join(root, altAsset), os.DirFS(filepath.Join(lib.TestVodRoot, altAsset))); err != nil {
+		cleanup()
+		return nil, err
+	}
 	for _, a := range []string{"testpic_2s", "testpic_8s"} {
 		if err := os.CopyFS(filepath.Join(root, a), os.DirFS(filepath.Join(lib.TestVodRoot, a))); err != nil {
 			cleanup()
@@ -125,6 +133,7 @@ func newHistoryEnv() (*historyEnv, error) {
 		}
 	}
 	env.hasDRM = len(env.drmPkgs) > 0
+	env.segMS[altAsset] = 4000
 	prot := []string{"", "eccp_cbcs/", "eccp_cenc/"}
 	for _, p := range env.drmPkgs {
 		prot = append(prot, "drm_"+p+"/")
@@ -220,6 +229,30 @@ func (env *historyEnv) targets(asset string, now int64) []target {
 	return ts
 }
 
+// targetsAlt: MPD and patch requests for the asset with alternating segment durations.
+func (env *historyEnv) targetsAlt(now int64) []target {
+	mk := func(fam string, opts map[string]string) target {
+		return target{Family: fam, Asset: altAsset, Opts: opts, Rest: "Manifest.mpd", NowMS: now}
+	}
+	ts := []target{
+		mk("mpd-varying-durations", map[string]string{}),
+		mk("mpd-varying-durations-timeline-number", map[string]string{"mode": "segtimelinenr_1/"}),
+		mk("mpd-varying-durations-ato", map[string]string{"ato": "ato_1/"}),
+	}
+	for _, back := range []int64{3000, 9000} {
+		old := mk("x", map[string]string{"patch": "patch_60/"})
+		old.NowMS = now - back
+		if o := lib.ObserveMPD(env.prep.Get(old.url())); o != nil && o.PatchLocation != "" {
+			if i := strings.Index(o.PatchLocation, "?"); i >= 0 {
+				t := mk("patch-varying-durations", map[string]string{"patch": "patch_60/"})
+				t.Rest, t.Patch, t.Query = "Manifest.mpp", true, strings.ReplaceAll(o.PatchLocation[i+1:], "&amp;", "&")
+				ts = append(ts, t)
+			}
+		}
+	}
+	return ts
+}
+
 func swapRep(rest string) (string, bool) {
 	switch {
 	case strings.HasPrefix(rest, "V300/"):
@@ -237,7 +270,8 @@ func (env *historyEnv) neighbours(t target, kind string) []string {
 	case "time", "time-backwards": // the same URL at other instants, oldest first / newest first
 		loop := int64(8000)
 		ds := []int64{-env.segMS[t.Asset], env.segMS[t.Asset], -loop, 10 * loop, -3_600_000, 3_600_000,
-			-1, -env.segMS[t.Asset] / 4, -env.segMS[t.Asset] / 2, -3 * env.segMS[t.Asset] / 4, env.segMS[t.Asset] / 4}
+			-1, -env.segMS[t.Asset] / 4, -env.segMS[t.Asset] / 2, -3 * env.segMS[t.Asset] / 4, env.segMS[t.Asset] / 4,
+			-1000, -2000, -3000, 1000}
 		// a $Number$ media request: also the instant at which that segment is the newest one
 		var nr int64
 		if _, err := fmt.Sscanf(filepath.Base(t.Rest), "%d.", &nr); err == nil && t.Opts["mode"] == "" && nr > 0 && nr < 1<<40 {
@@ -473,6 +507,16 @@ func runHistories(c *lib.Ctx) (int, error) {
 	var ts []target
 	for _, s := range specs {
 		ts = append(ts, env.targets(s.asset, s.now)...)
+	}
+	// the asset with 4 s / 8 s segments: shortly after each of the two segment ends of a 12 s loop
+	loops := []int64{100 + rng.Int63n(1000)}
+	if c.Thorough() {
+		loops = append(loops, 1000+rng.Int63n(100000), 141_666_666+rng.Int63n(1000))
+	}
+	for _, k := range loops {
+		for _, phase := range []int64{4500, 8500, 500} {
+			ts = append(ts, env.targetsAlt(k*12000+phase)...)
+		}
 	}
 	hs := env.histories(ts)
 	var urls []string
